@@ -141,7 +141,7 @@ func runC02(c *Ctx) {
 	}
 	for si, seq := range seqs {
 		cfg := baseCfg(r, r.Intn(len(baseCfgs)))
-		o := histOpts{units: 3 + r.Intn(10), maxCols: 4, maxRows: 2, rotations: true, ignorables: true}
+		o := histOpts{units: 3 + r.Intn(10), maxCols: 4, maxRows: 2, rotations: true, ignorables: true, txDDL: si%2 == 0}
 		var h *history
 		if seq != nil {
 			// fixed kinds: generate unit by unit
@@ -187,6 +187,35 @@ func runC02(c *Ctx) {
 				break
 			}
 		}
+	}
+	// every event type code the streamer has no branch for, between units and inside transactions: none of them may
+	// commit, deliver, or move a label (XA prepare 38, the MariaDB codes 160.., 0, 255 ...)
+	var unk []int
+	for t := 0; t < 256; t++ {
+		switch t {
+		case 2, 4, 5, 13, 15, 16, 19, 23, 24, 25, 29, 30, 31, 32:
+		default:
+			unk = append(unk, t)
+		}
+	}
+	r.Shuffle(len(unk), func(i, j int) { unk[i], unk[j] = unk[j], unk[i] })
+	per := 4
+	for i := 0; i < len(unk); i += per {
+		j := i + per
+		if j > len(unk) {
+			j = len(unk)
+		}
+		cfg := baseCfg(r, r.Intn(len(baseCfgs)))
+		o := histOpts{maxCols: 2, maxRows: 1, rotations: true, ignorables: true, rawTypes: unk[i:j], txDDL: true,
+			seq: []string{"ignorable", r.PickS("txXid", "txCommit"), "ignorable", r.PickS("txCommit", "txXid"), "ignorable", r.PickS("ddl", "autoRows"), "ignorable", r.PickS("txXid", "txCommit", "txRollback")}}
+		h := genHistory(r, cfg, o)
+		h.encode(c)
+		c.R.Count(fmt.Sprintf("unknown-types/%d", len(unk[i:j])))
+		c.R.Dist["unknown_type_codes"] += j - i
+		if i == 0 {
+			c.R.Sample(fmt.Sprintf("cfg=%s unknown types %v units=%v events=%d", cfg, unk[i:j], h.kinds, len(h.events)))
+		}
+		checkFullRun(c, "C02", h, fmt.Sprintf("unknown event types %v", unk[i:j]))
 	}
 	// statement classification: every casing of every keyword, arbitrary tails
 	words := []string{"begin", "commit", "rollback", "insert", "update", "delete", "create", "alter", "drop", "truncate", "rename", "set"}
@@ -395,7 +424,7 @@ func runC04(c *Ctx) {
 	nh := c.N(5, 120)
 	for hi := 0; hi < nh; hi++ {
 		cfg := baseCfg(r, r.Intn(len(baseCfgs)))
-		o := histOpts{units: 3 + r.Intn(6), maxCols: 3, maxRows: 2, rotations: true, ignorables: hi%2 == 0}
+		o := histOpts{units: 3 + r.Intn(6), maxCols: 3, maxRows: 2, rotations: true, ignorables: hi%2 == 0, txDDL: hi%3 == 0}
 		h := genHistory(r, cfg, o)
 		h.encode(c)
 		D, ok := checkFullRun(c, "C04", h, "baseline")
